@@ -1,10 +1,10 @@
 #!/bin/bash
-# Runs every property's rules on every seeded change (as an in-memory overlay; /repo is not touched)
-# and prints which rules fire. Output: one line per (seeded id, property) with the reported rule ids.
+# Runs every property's rules on seeded changes (as in-memory overlays; /repo is not touched)
+# and prints which rules report. usage: detection_matrix.sh <outdir> [seeded-id-glob]
 cd "$(dirname "$0")/.."
 export PATH=/opt/veriftools/go1.26.8/bin:$PATH GOTOOLCHAIN=local GOFLAGS=-mod=mod GOPROXY=off GOSUMDB=off
 unset GOWORK
-out=${1:-/tmp/matrix}
+out=${1:-/tmp/matrix}; glob=${2:-*}
 mkdir -p $out
 props=$(./bin/mlrlint -list)
 run() {
@@ -12,20 +12,21 @@ run() {
   ./bin/mlrlint -child -prop $p -repo ${VERIF_REPO:-/repo} -verif "$(pwd)" -patch seeded/$s/patch.diff 2>&1 | grep '^CHILD-RESULT' | sed 's/^CHILD-RESULT //' > $out/$s.$p.json
 }
 export -f run
-for s in $(ls seeded); do for p in $props; do echo "$s $p $out"; done; done | xargs -P 8 -L 1 bash -c 'run $0 $1 $2'
+for d in seeded/$glob; do s=$(basename $d); for p in $props; do echo "$s $p $out"; done; done | xargs -P 6 -L 1 bash -c 'run $0 $1 $2'
 python3 - "$out" <<'PY'
 import json,sys,glob,os
 out=sys.argv[1]
 rows={}
 for f in sorted(glob.glob(out+'/*.json')):
     s,p=os.path.basename(f)[:-5].split('.')
+    rows.setdefault(s,{})
     try: d=json.load(open(f))
-    except Exception as e: rows.setdefault(s,{})[p]='ERR'; continue
-    if d['status']!='ok': rows.setdefault(s,{})[p]=d['status']; continue
-    rules=sorted(set(v.split('|')[0] for v in d['violations'] if v.endswith('|violation')))
-    und=sorted(set(v.split('|')[0] for v in d['violations'] if v.endswith('|undecided')))
-    if rules or und: rows.setdefault(s,{})[p]=','.join(rules)+(' undecided:'+','.join(und) if und else '')
-    else: rows.setdefault(s,{})
+    except Exception as e: rows[s][p]='ERR'; continue
+    if d['status']!='ok': rows[s][p]=d['status']+':'+d.get('detail','')[:80]; continue
+    vs=d.get('violations') or []
+    rules=sorted(set(v.split('|')[0] for v in vs if v.endswith('|violation')))
+    und=sorted(set(v.split('|')[0] for v in vs if v.endswith('|undecided')))
+    if rules or und: rows[s][p]=','.join(rules)+(' undecided:'+','.join(und) if und else '')
 for s in sorted(rows):
     print(s, '; '.join(f'{p}: {r}' for p,r in sorted(rows[s].items())) or '-')
 PY
